@@ -36,6 +36,10 @@ def configs(tier, seed):
     # a datagram long enough to get through header-protection removal (sample = bytes 5..20) of a short-header packet
     for ctx_ in ("after-quic-same-address", "after-quic-other-address", "inside-quic0-other-address", "inside-quic0-same-address"):
         out.append({"harness": "udp", "name": "udp-24-%s" % ctx_, "n": 24, "context": ctx_, "short_header": True})
+    # a Version Negotiation datagram (long header, version 0, connection ids of 0/1/4 bytes, one or two offered versions): legal QUIC
+    # traffic that is not a version 1 packet
+    for ctx_ in ("alone", "after-quic-same-address", "inside-quic0-same-address"):
+        out.append({"harness": "udp", "name": "udp-vn-%s" % ctx_, "n": None, "context": ctx_, "version_negotiation": True})
     for lens in ([(3,), (6,), (5, 3)] if tier == "quick" else [(1,), (4,), (5,), (6,), (9,), (5, 3), (3, 5), (6, 6)]):
         out.append({"harness": "tcp", "name": "tcp-" + "+".join(str(x) for x in lens), "lens": list(lens)})
     for v in TLS_VICTIMS:
@@ -49,6 +53,11 @@ def configs(tier, seed):
                     out.append({"harness": "fault", "name": "fault-%s-%s-part%d" % (v, f, part), "victim": v, "fault": f, "part": part, "parts": 4, "tier": tier})
             else:
                 out.append({"harness": "fault", "name": "fault-%s-%s" % (v, f), "victim": v, "fault": f})
+    # a segment lost inside a record that travels in three segments (not at a record boundary: the known finding does not apply)
+    for v in ("tls11-rc4", "tls10-cbc", "tls12-gcm"):
+        for part in range(4):
+            out.append({"harness": "fault", "name": "fault-%s-delete-inside-record-part%d" % (v, part), "victim": v, "fault": "delete", "part": part, "parts": 4, "tier": tier,
+                        "split3": True})
     for f in FAULTS[:-1]:
         if tier == "quick" and f in ("keys-wrong", "overwrite"):
             continue       # wrong header-protection keys / damaged first bytes fork over packet-number length and key phase per packet: thorough tier only
@@ -79,6 +88,12 @@ def _positions(cfg, n):
 
 def _fault_units(cfg, units):
     ks = list(range(len(units)))
+    if cfg.get("split3"):
+        # application records only: a hole inside a handshake record turns ciphertext into record headers, which the garbage-in
+        # behaviour of the record parser decides, not the reassembly
+        ks = [k for k in ks if units[k].get("piece", 0) > 0 and len(units[k]["data"]) > 0 and units[k].get("kind") == "app"]
+        mine = [k for i, k in enumerate(ks) if i % cfg.get("parts", 1) == cfg.get("part", 0)]
+        return mine or ks[:1]
     if cfg["victim"] == "tls10-cbc":
         ks = ks[-3:]          # CBC victim: faults on the application records only (garbage padding lengths explode otherwise)
     mine = [k for i, k in enumerate(ks) if i % cfg.get("parts", 1) == cfg.get("part", 0)]
@@ -121,8 +136,13 @@ def _run(mods, blocks, keylog, argv_extra=()):
     return RD.run_main(mods, ["-i", "in.pcapng", "-o", "o.pcapng", "-s", "k.log"] + list(argv_extra), env)
 
 
+from tlv.sx.core import BudgetExceeded as _Budget      # a path of main.run that exhausts its decision or time budget: candidate for non-termination
+
+
 def _fail_detail(e):
     import traceback
+    if isinstance(e, _Budget):
+        return "main.run did not finish within the budget of one path (%s): candidate for non-termination, decided by the replay" % e
     return "%s: %s %s" % (type(e).__name__, e, traceback.format_exc().splitlines()[-3:-1])
 
 
@@ -146,7 +166,15 @@ def _run_udp(cfg):
             c02.assume_cids_prefix_free(c, meta)
             c02.assume_no_accidental_cid(c, meta, dgrams)
             blocks += [(float(ts), fr) for fr, ts, _ in P.udp_frames(ep, dgrams)]
-        payload = sym_bytes("udp", cfg["n"])
+        if cfg.get("version_negotiation"):
+            dl, sl, nv = sym_choice("vn_dcid_len", [0, 1, 4]), sym_choice("vn_scid_len", [0, 1, 4]), sym_choice("vn_versions", [1, 2])
+            payload = sym_bytes("udp", 7 + dl + sl + 4 * nv)
+            c.assume((payload[0] & 0x80) == 0x80)
+            c.assume(payload[1:5] == bytes(4))
+            c.assume(payload[5] == dl)
+            c.assume(payload[6 + dl] == sl)
+        else:
+            payload = sym_bytes("udp", cfg["n"])
         if cfg.get("short_header"):
             c.assume((payload[0] & 0xC0) == 0x40)
         src_ep = ep if "other-address" not in cfg["context"] else P.Endpoint(ipv=4, c_port=52000, c_ip=b"\x0a\x00\x00\x07", s_ip=b"\x0a\x00\x00\x08", s_port=9999)
@@ -161,7 +189,7 @@ def _run_udp(cfg):
         try:
             out = _run(mods, blocks, keylog)
             ref = _run(mods, healthy, keylog) if healthy and "other-address" in cfg["context"] else None
-        except (Exception, RD.ExitCalled) as e:
+        except (Exception, RD.ExitCalled, _Budget) as e:
             c.fail("run-completes", _fail_detail(e))
             return {"outcome": "aborted"}
         c.check(True, "run-completes")
@@ -192,7 +220,7 @@ def _run_tcp(cfg):
             blocks.insert(2 + i, (50.0 + i, F.ethernet(ep.s_mac, ep.c_mac, False, F.ip_header(False, ep.c_ip, ep.s_ip, 6, len(sg)) + sg)))
         try:
             out = _run(mods, blocks, by_kl)
-        except (Exception, RD.ExitCalled) as e:
+        except (Exception, RD.ExitCalled, _Budget) as e:
             c.fail("run-completes", _fail_detail(e))
             return {"outcome": "aborted"}
         c.check(True, "run-completes")
@@ -250,6 +278,15 @@ def _run_fault(cfg):
                 vc["server_hello_suite_override"] = True
             items, keylog, meta = SC.build(vc, src)
             units = [{"from_server": it.from_server, "data": as_symbytes(it.data), "ts": 100.0 + i, "kind": it.kind} for i, it in enumerate(items)]
+            if cfg.get("split3"):
+                # every record travels in three segments; the fault hits a segment that is not the first one of its record
+                cut = []
+                for u in units:
+                    n = len(u["data"])
+                    a, b = n // 3, 2 * n // 3
+                    for k, (lo, hi) in enumerate(((0, a), (a, b), (b, n))):
+                        cut.append({"from_server": u["from_server"], "data": SymBytes(u["data"].e[lo:hi]), "ts": u["ts"] + 0.25 * k, "kind": u["kind"], "piece": k})
+                units = cut
             sent = {d_: [it.app for it in items if it.app is not None and it.from_server == d_] for d_ in (False, True)}
         # independent secrets are different (negligible collision probability)
         for i in range(len(keylog)):
@@ -324,7 +361,7 @@ def _run_fault(cfg):
         merged = sorted(blocks + by_blocks, key=lambda x: x[0])
         try:
             out = _run(mods, merged, keylog + by_kl)
-        except (Exception, RD.ExitCalled) as e:
+        except (Exception, RD.ExitCalled, _Budget) as e:
             c.fail("run-completes", _fail_detail(e))
             return {"outcome": "aborted"}
         c.check(True, "run-completes")
@@ -341,7 +378,7 @@ def _run_fault(cfg):
                     conds.append(g == w[:len(g)])
             victim_kind = "aead" if (is_quic or TLS_VICTIMS[cfg["victim"]]["aead"]) else "no-integrity"
             ok = sym_and(*conds)
-            if victim_kind == "no-integrity" and fault in ("delete", "shorten") and ok is not True:
+            if victim_kind == "no-integrity" and fault in ("delete", "shorten") and ok is not True and not cfg.get("split3"):
                 # known finding: without integrity protection a lost segment desynchronises the CBC residue / RC4 key stream or skips a record
                 import z3
                 from tlv.sx.core import SymBool
@@ -439,7 +476,15 @@ def replay(cfg, viol):
         if fault == "unknown-suite":
             vc["server_hello_suite_override"] = True
         items, keylog, meta = SC.build(vc, src)
-        units = [{"from_server": it.from_server, "data": bytes(it.data), "ts": (100 + i) * 1000000} for i, it in enumerate(items)]
+        units = [{"from_server": it.from_server, "data": bytes(it.data), "ts": (100 + i) * 1000000, "kind": it.kind} for i, it in enumerate(items)]
+        if cfg.get("split3"):
+            cut = []
+            for u in units:
+                n = len(u["data"])
+                a, b = n // 3, 2 * n // 3
+                for k, (lo, hi) in enumerate(((0, a), (a, b), (b, n))):
+                    cut.append({"from_server": u["from_server"], "data": u["data"][lo:hi], "ts": u["ts"] + 250000 * k, "piece": k, "kind": u["kind"]})
+            units = cut
         sent = {d_: b"".join(bytes(it.app) for it in items if it.app is not None and it.from_server == d_) for d_ in (False, True)}
     if fault in ("delete", "shorten", "overwrite"):
         mine = _fault_units(cfg, units)
